@@ -1120,6 +1120,11 @@ class TE:
                     raise AnalysisError(f"{mod}:{e.lineno} {n}(): {ex}")
             if f.name in ("builtins.dict.fromkeys",):
                 return dict.fromkeys(list(self.iterate(args[0])), *args[1:])
+            if f.name in ("builtins.bytes.maketrans", "builtins.bytearray.maketrans", "builtins.str.maketrans"):
+                try:
+                    return (str if ".str." in f.name else bytes).maketrans(*[bytes(a) if isinstance(a, bytearray) else a for a in args])
+                except Exception as ex:
+                    raise AnalysisError(f"{mod}:{e.lineno} {f.name}(): {ex}")
             if f.name in ("builtins.int.from_bytes", "builtins.bytes.fromhex", "builtins.str.join", "builtins.bytes.join", "builtins.str.format",
                           "builtins.divmod", "builtins.round", "builtins.pow", "builtins.ord", "builtins.chr", "builtins.hex", "builtins.repr"):
                 import builtins as _b
